@@ -6,6 +6,7 @@ import RQ.Model.Executor
 import RQ.Gen.Tables
 import RQ.Lemmas.Sorted
 import Mathlib.Tactic.Linarith
+import RQ.Lemmas.WorldF
 
 namespace RQ.Props.C08
 open RQ.Q
@@ -381,5 +382,21 @@ theorem order_apis_allowed_when_trading :
     orderPlacingApis.all (fun api =>
       ["OPEN_AUCTION", "ON_BAR", "SCHEDULED"].all (fun ph => allowed api ph)) = true := by
   decide +kernel
+
+
+/-! ### the day structure inside the composed world (`RQ/Model/World.lean`) -/
+
+/-- **what the lifecycle buys the trading core**: feed the composed world the events of ANY number of trading days in the order this
+file proves the executor publishes them (before_trading, open_auction, bar, after_trading, settlement — each once, in order), with ANY
+calls of the strategy inside its two callbacks (the API × phase table refuses them elsewhere), on any market.  Then every
+PRE_BEFORE_TRADING (corporate actions) and every SETTLEMENT (delisting, expiry, forced liquidation) meets EMPTY order books, and every
+day ends with empty books: no order ever survives the day it was placed on.  (The correspondence "inputs follow the executor's day
+structure" checks on every run that the real system's inputs have exactly this shape.) -/
+theorem world_day_structure_keeps_books_quiet (w : World) (days : List RQ.Lemmas.WorldF.Day)
+    (hc : ∀ d ∈ days, d.CallsOnly) (ho : w.openOrders = []) (ha : w.auctionOrders = []) :
+    RQ.Lemmas.WorldF.RunQuiet w (days.flatMap RQ.Lemmas.WorldF.Day.inputs) ∧
+    (w.run (days.flatMap RQ.Lemmas.WorldF.Day.inputs)).1.openOrders = [] ∧
+    (w.run (days.flatMap RQ.Lemmas.WorldF.Day.inputs)).1.auctionOrders = [] :=
+  RQ.Lemmas.WorldF.days_quiet w days hc ho ha
 
 end RQ.Props.C08
